@@ -30,36 +30,11 @@ def search():
 
 def shapes_stage(rep, tier, seed):
     """rarely taken emitter paths outside the generator's core (pipe of a tuple into a local function, comprehension over
-    descending slices, closure reassignment, `!` around a self call in tail position ...): the expected text and result of
-    every program are computed by progs.py from the language rules, independently of the implementation"""
-    import re, progs, vm_corr
-    h = vm_corr.VmHarness()
-    st = dict(programs=0, agree=0, bad=0)
-    try:
-        rounds = 2 if tier == "quick" else 12
-        rng = Rng(seed * 7919 + 5)
-        for r in range(rounds):
-            for (name, src, meta) in [t for fam in (progs.shapes_family, progs.arith_family) for t in fam(rng.fork())]:
-                st["programs"] += 1
-                run = h.run(src=src, args=["3"], trace=False, timeout=60)
-                io = vm_corr.impl_outcome(run)
-                out = run["out"].decode("latin-1")
-                res = None
-                for l in io["execs"]:
-                    m = re.search(r"result=(\S+)", l)
-                    if m: res = m.group(1)
-                ok = io["kind"].startswith("return") and out == meta["expect_out"] and res == meta["expect_res"]
-                h.cleanup(run)
-                if ok:
-                    st["agree"] += 1
-                else:
-                    st["bad"] += 1
-                    if st["bad"] <= 3:
-                        rep.violation("shape_%s_r%d" % (name, r), "# the compiled program does not compute what the evaluation rules say\n# expected output %r result %s\n# observed %s output %r result %s\n# stderr: %s\n%s"
-                                      % (meta["expect_out"], meta["expect_res"], io["kind"], out, res, run["err"][-400:].replace("\n", "\n# "), src), True)
-    finally:
-        h.close()
-    return st
+    descending slices, closure reassignment, `!` around a self call in tail position, typed operators on run-time operands,
+    faults inside catch clauses ...): the expected text and result of every program are computed by progs.py from the
+    language rules, independently of the implementation"""
+    import vm_checks
+    return vm_checks.expectation_stage(rep, tier, seed, "shape")
 
 def check(tier, seed):
     rep = Report("C02", tier, seed, "translation_validation")
